@@ -29,7 +29,33 @@ type lcurve struct {
 	isSM2 bool
 }
 
-var lcurves = []lcurve{{"nist-p256", elliptic.P256(), false}, {"generic-sm2-copy", genericSM2, true}}
+var lcurvesAll = []lcurve{{"nist-p256", elliptic.P256(), false}, {"generic-sm2-copy", genericSM2, true}, {"nist-p384", elliptic.P384(), false}}
+
+// usableCurves drops NIST P-256 when the standard library's own P-256 order
+// inversion is unusable in this build: with -tags purego on amd64 Go 1.23 still
+// compiles crypto/elliptic's p256Curve.Inverse, whose nistec back end is then a
+// stub that fails, so Inverse panics for every argument ("nistec rejected
+// normalized scalar"). That is a property of the toolchain, not of the library
+// (its own NIST P-256 tests carry the build tag !purego for this reason).
+func usableCurves(x *mon.Ctx) []lcurve {
+	out := lcurvesAll
+	if inv, ok := elliptic.P256().(interface{ Inverse(*big.Int) *big.Int }); ok {
+		if p := mon.Try(func() { inv.Inverse(big64(2)) }); p != nil {
+			x.Note("crypto/elliptic P-256 Inverse panics in this build (%v): NIST P-256 signing is not exercised here", p.Value)
+			out = out[1:]
+		}
+	}
+	return out
+}
+
+// digestToIntFor takes the leftmost order-size bytes of the digest (all curves
+// used here have an order whose bit length is a multiple of 8).
+func digestToIntFor(cv elliptic.Curve, digest []byte) *big.Int {
+	if l := (cv.Params().N.BitLen() + 7) / 8; len(digest) > l {
+		digest = digest[:l]
+	}
+	return new(big.Int).SetBytes(digest)
+}
 
 func fill(v *big.Int, l int) []byte { return v.FillBytes(make([]byte, l)) }
 
@@ -84,7 +110,7 @@ func lverify(lc lcurve, X, Y *big.Int, digest, sig []byte) sm2sig.Reason {
 	if err != nil {
 		return sm2sig.BadDER
 	}
-	return lverifyRS(lc, X, Y, sm2sig.DigestToInt(digest), r, s)
+	return lverifyRS(lc, X, Y, digestToIntFor(lc.c, digest), r, s)
 }
 
 type lin struct {
@@ -134,16 +160,6 @@ func ljudge(c *mon.Case, label string, in lin, sig []byte) sm2sig.Reason {
 		c.Detail("digest", in.e)
 		c.Detail("pubkey", elliptic.Marshal(in.lc.c, in.pub.X, in.pub.Y))
 		msg := fmt.Sprintf("%s on %s: %s %s the candidate, the oracle says %s; sig=%s digest=%x", label, in.lc.name, en.name, verb, want, shortHex(sig), in.e)
-		if got && want == sm2sig.BadPoint {
-			// bug model: verifyLegacy takes the (0,0) the curve API returns for the point at
-			// infinity as x1 = 0, so the pair is accepted exactly when r = e mod n
-			r, _, _ := sm2sig.ParseDER(sig)
-			em := new(big.Int).Mod(sm2sig.DigestToInt(in.e), in.lc.c.Params().N)
-			if r != nil && r.Cmp(em) == 0 {
-				c.Known("legacy-verify-infinity", kind, "%s", msg)
-				continue
-			}
-		}
 		c.Fail(kind, "%s", msg)
 	}
 	return want
@@ -179,6 +195,7 @@ var lsigners = []lsigner{
 
 func legacy(x *mon.Ctx) {
 	selfTest(x)
+	lcurves := usableCurves(x)
 	total := x.Scale(60, 900)
 	for i := 0; i < total; i++ {
 		lc := lcurves[i%len(lcurves)]
@@ -298,7 +315,12 @@ func legacyCase(c *mon.Case, lc lcurve, sg lsigner, dk string) {
 	// exceptional final additions (the owner of d can build them)
 	if d.Cmp(one) > 0 && add(d, one).Cmp(N) < 0 {
 		inv := func(a *big.Int) *big.Int { return new(big.Int).ModInverse(new(big.Int).Mod(a, N), N) }
-		rr := add(c.R.BigBelow(sub(N, one)), one)
+		lim := N
+		if lim.Cmp(two56) > 0 {
+			lim = two56 // r must also be expressible as a 32-byte digest below
+		}
+		rr := add(c.R.BigBelow(sub(lim, one)), one)
+		ol := (N.BitLen() + 7) / 8
 		// [s]G = -[t]P : no x1 exists, whatever the digest
 		sInf := new(big.Int).Mod(new(big.Int).Neg(mul(mul(rr, d), inv(add(one, d)))), N)
 		if sInf.Sign() != 0 {
@@ -319,7 +341,7 @@ func legacyCase(c *mon.Case, lc lcurve, sg lsigner, dk string) {
 			}
 			ed := new(big.Int).Mod(sub(rr, x1), N)
 			c.Event("final_add_is_doubling", 1)
-			if w := ljudgeRS(c, "pair whose final addition is a doubling", lin{lc: lc, pub: in.pub, e: fill(ed, 32)}, rr, sDbl); w != sm2sig.Accept {
+			if w := ljudgeRS(c, "pair whose final addition is a doubling", lin{lc: lc, pub: in.pub, e: fill(ed, ol)}, rr, sDbl); w != sm2sig.Accept {
 				c.Inconclusive("oracle refuses the constructed doubling pair: %s", w)
 			}
 		}
